@@ -367,3 +367,13 @@ func Unguard() {
 		statusFD.Truncate(0)
 	}
 }
+
+// Keys returns the finding keys recorded so far (sorted).
+func (r *R) Keys() []string {
+	ks := make([]string, 0, len(r.viol))
+	for k := range r.viol {
+		ks = append(ks, k)
+	}
+	sort.Strings(ks)
+	return ks
+}
